@@ -3,18 +3,25 @@
 import json, os
 HERE = os.path.dirname(os.path.abspath(__file__))
 
-CHECKS = {
- "C06": dict(
-   text="Lean 4 theorems over a code-shaped executable model of DataTracker::process_payload (uint32 wrap explicit), "
-        "tied to the code by differential correspondence on random/exhaustive arrival histories under ASan/UBSan and by "
-        "a spec oracle (the Lean spec itself, executable) evaluated on the implementation's own output.",
-   note="Trusted: Lean kernel + standard axioms; hand-written model tied by correspondence (harness/c06_tracker.cpp); "
-        "std::map successor modelled order-theoretically; generator coverage bounds what the tie sees.",
-   technique="Lean 4 proof (invariant/refinement over arrival histories) + model/impl correspondence",
-   design="§6 C06"),
-}
+import importlib, sys
+sys.path.insert(0, HERE)
+
+def load_checks():
+    """Every checks/Cxx.py that defines MANIFEST = dict(text, note, technique, design[, category]) is a claimed check."""
+    out = {}
+    for i in range(1, 20):
+        pid = f"C{i:02d}"
+        if os.path.exists(os.path.join(HERE, "checks", pid + ".py")):
+            mod = importlib.import_module("checks." + pid)
+            if hasattr(mod, "MANIFEST"):
+                out[pid] = mod.MANIFEST
+    return out
+
+CHECKS = load_checks()
 
 PENDING = {}
+
+HOOK_COMMITS = ["1219584"]
 
 def main():
     props = [json.loads(l) for l in open(os.path.join(HERE, "properties.jsonl"))]
@@ -42,7 +49,7 @@ def main():
         "hooks": {
             "guard": "TINS_VERIF_HOOKS",
             "enable": "checks compile /repo/src/**/*.cpp directly with g++ -DTINS_VERIF_HOOKS -fsanitize=address,undefined (vlib/core.py build_impl)",
-            "baseline_off_cmd": "cmake --build /repo/_build && ctest --test-dir /repo/_build -j8 --timeout 900",
+            "baseline_off_cmd": "cmake --build /repo/_build && cmake --build /repo/_build --target tests && ctest --test-dir /repo/_build -j8 --timeout 900",
             "source_commits": HOOK_COMMITS,
             "add_only": True,
         },
@@ -58,6 +65,6 @@ def main():
         json.dump(m, f, indent=1)
         f.write("\n")
 
-HOOK_COMMITS = []
+
 if __name__ == "__main__":
     main()
